@@ -84,7 +84,9 @@ int main(int argc, char **argv)
             /* ---- the tree */
             cx_g.ctxs = &ctxs; cx_g.n_reg = n_reg; cx_g.expansion = expansion_case;
             cx_g.target_depth = target_depth; cx_g.files_left = files_left; cx_g.chain_left = chain_left;
+            cx_g.cycles = vh_coin(30);
             cx_file *mainf = cx_gen_tree("main.cfg", balanced, 1);
+            cx_g.cycles = 0;
             int max_level = cx_g.max_level;
             cx_files_write_all();
 
